@@ -4,8 +4,8 @@ CONSTANTS
   SysDef <- Systems
   DirChoices <- Dirs
   NeuChoices <- Neus
-  MaxConds = 3
-  MaxRounds = 1
+  MaxConds = 2
+  MaxRounds = 2
   Emit = TRUE
 INVARIANT Holds
-INVARIANT EmitOK
+INVARIANT EmitChain
